@@ -32,7 +32,7 @@ func CreatePromiseAndTask(c gocoro.Coroutine[*t_aio.Submission, *t_aio.Completio
 		ProcessId: &r.CreatePromiseAndTask.Task.ProcessId,
 		State:     task.Claimed,
 		Ttl:       r.CreatePromiseAndTask.Task.Ttl,
-		ExpiresAt: c.Time() + int64(r.CreatePromiseAndTask.Task.Ttl),
+		ExpiresAt: util.AddSat(c.Time(), int64(r.CreatePromiseAndTask.Task.Ttl)),
 		CreatedOn: c.Time(),
 	})
 }
